@@ -1187,6 +1187,66 @@ theorem algopt_needs_no_stmts :
     A.wf ∧ algOpt A = .declined ∧ algOptWith true true false A = .readsInner := by
   refine ⟨⟨fun _ => Or.inr (Or.inr (by decide)), fun k h => by simp at h⟩, by decide, by decide⟩
 
+/-! ### DCE's use collector: every syntactic use position, the callee included -/
+
+theorem dceU_live_mono (cc : Bool) (p : List US) (live : List Nat) : ∀ x, x ∈ live → x ∈ (dceU cc p live).2 := by
+  induction p with
+  | nil => intro x h; exact h
+  | cons s r ih =>
+    intro x h
+    simp only [dceU]
+    split
+    · exact List.mem_append_right _ (ih x h)
+    · exact ih x h
+
+/-- FULL STRENGTH: every name read — in ANY position: operand, pointer, struct field, closure
+context, call argument, variable CALLEE, break value — by a statement that DCE keeps is in the used
+set at the entry of the block, and so is every name used afterwards. -/
+theorem dceU_kept_uses_live (p : List US) (live : List Nat) :
+    ∀ s, s ∈ (dceU true p live).1 → ∀ x, x ∈ s.uses true → x ∈ (dceU true p live).2 := by
+  induction p with
+  | nil => intro s h; simp [dceU] at h
+  | cons t r ih =>
+    intro s hs x hx
+    simp only [dceU] at hs ⊢
+    by_cases hc : t.kept (dceU true r live).2 = true
+    · simp only [hc, if_true] at hs ⊢
+      simp only [List.mem_cons] at hs
+      rcases hs with rfl | hs
+      · exact List.mem_append_left _ hx
+      · exact List.mem_append_right _ (ih s hs x hx)
+    · simp only [hc] at hs ⊢
+      exact ih s hs x hx
+
+/-- … hence a definition DCE removes is read by no statement it keeps after it -/
+theorem dceU_removed_not_read (t : US) (r : List US) (live : List Nat) (x : Nat)
+    (hd : t.defn = some x) (hrem : t.kept (dceU true r live).2 = false) :
+    ∀ s, s ∈ (dceU true r live).1 → x ∉ s.uses true := by
+  intro s hs hu
+  have hin := dceU_kept_uses_live r live s hs x hu
+  simp only [US.kept, hd, Bool.or_eq_false_iff] at hrem
+  have := hrem.2
+  simp at this
+  exact this hin
+
+/-- the `While` arm: a loop variable that is dropped is read by no statement of the body, in no
+position (callee included), and by no initial or loop value -/
+theorem dropped_loop_var_unused (lvs : List (Nat × Operand × Operand)) (body : List US) (v : Nat)
+    (hv : v ∈ lvs.map (·.1)) (hdrop : v ∉ keptLoopVars true lvs body) :
+    (∀ s, s ∈ body → v ∉ s.uses true) ∧ (∀ lv, lv ∈ lvs → v ∉ lv.2.1.vars ∧ v ∉ lv.2.2.vars) := by
+  simp only [keptLoopVars, List.mem_filter, not_and] at hdrop
+  have hnot := hdrop hv
+  simp only [List.contains_iff_mem, List.mem_append, List.mem_flatMap, not_or, not_exists, not_and] at hnot
+  exact ⟨fun s hs hu => hnot.2 s hs hu, fun lv hlv => hnot.1 lv hlv⟩
+
+/-- The callee clause is necessary (seeded-fault class C02f): without it a loop variable that holds a
+closure and is only CALLED in the body is dropped although the call that stays reads it. -/
+theorem callee_must_count_as_use :
+    let lvs : List (Nat × Operand × Operand) := [(1, .var 9, .var 3)]
+    let body : List US := [.call (some 1) [.var 2] (some 4), .clo 3 (.var 4)]
+    keptLoopVars false lvs body = [] ∧ keptLoopVars true lvs body = [1] ∧
+    1 ∈ (US.call (some 1) [.var 2] (some 4)).uses true := by decide
+
 /-! ## 10. Common-subexpression elimination never hoists a trap above an effect -/
 
 /-- FULL STRENGTH (`cse_hoist_order`): for all branches and environments, the statements CSE places
